@@ -36,21 +36,21 @@ Definition complete_version (c : cfgT) (f : fsT) (cmd : command) (p x : bytes) :
                   | CAdd _ b0 _ => beq (lf_base lx) b0
                   | _ => false end)) olds).
 
-Definition step_spec (c : cfgT) (w : wobs) (s : step) : bool :=
-  if e_pretend (s_env s) then true else
-  let f := wo_fs w in let f' := wo_fs (after w s) in
+Definition step_spec (c : cfgT) (w : wobs) (v : sview) : bool :=
+  if e_pretend (v_env v) then true else
+  let f := wo_fs w in let f' := wo_fs (v_after v) in
   (* (b) crash or not: no layerconfig is ever an empty or truncated file *)
   forallb (fun e => match snd e with
                     | File x => if beq (pathbase (fst e)) D_LayerconfigFile && under (c_layers c) (fst e)
-                                then complete_version c f (s_cmd s) (fst e) x else true
+                                then complete_version c f (v_cmd v) (fst e) x else true
                     | _ => true end) f'
   (* (a) a successful rewrite keeps parent, imports and exports of every layer that loaded *)
-  && match s_res s, e_fault (s_env s) with
+  && match v_res v, e_fault (v_env v) with
      | ROk, NoFault =>
        forallb (fun x =>
          if l_state x =? st_error then true else
-         let newname := match s_cmd s with CRename a n => if beq a (l_name x) then n else l_name x | _ => l_name x end in
-         match s_cmd s with
+         let newname := match v_cmd v with CRename a n => if beq a (l_name x) then n else l_name x | _ => l_name x end in
+         match v_cmd v with
          | CRemove a _ => true
          | _ =>
            match layer_named c f' newname with
@@ -58,7 +58,7 @@ Definition step_spec (c : cfgT) (w : wobs) (s : step) : bool :=
            | Some y =>
              list_beq nmount_beq (l_mounts x) (l_mounts y) && list_beq nmount_beq (l_exports x) (l_exports y)
              && beq (l_base y)
-                    (match s_cmd s with
+                    (match v_cmd v with
                      | CRename a n => if beq (l_base x) a then n else l_base x
                      | CRebase a b0 => if beq a (l_name x) then b0 else l_base x
                      | _ => l_base x end)
@@ -67,7 +67,7 @@ Definition step_spec (c : cfgT) (w : wobs) (s : step) : bool :=
      | _, _ => true
      end.
 
-Definition spec (c : case) : bool := along (step_spec (c_cfg c)) (w0 c) (c_steps c).
+Definition spec (c : case) : bool := along_views (step_spec (c_cfg c)) (w0 c) (c_steps c).
 Definition wf := LC.wf.
 Definition kf (c : case) : N := 0.
 Definition verdict (c : case) : N := mkverdict (wf c) (LC.corr c) (spec c) (kf c).
